@@ -221,7 +221,7 @@ func (c *DefaultCtx) AcceptsEncodings(offers ...string) string {
 
 // AcceptsLanguages checks if the specified language is acceptable.
 func (c *DefaultCtx) AcceptsLanguages(offers ...string) string {
-	return getOffer(c.fasthttp.Request.Header.Peek(HeaderAcceptLanguage), acceptsOffer, offers...)
+	return getOffer(c.fasthttp.Request.Header.Peek(HeaderAcceptLanguage), acceptsLanguageOffer, offers...)
 }
 
 // App returns the *App reference to the instance of the Fiber application
